@@ -669,7 +669,7 @@ func (obj *sagaLogisticRegressionL1worker) Iterate(epoch int) error {
     g1 = obj.dict[j]
     // perform jit updates for all x_i where g_i != 0
     if err := obj.jitUpdates(i_, j); err != nil {
-      return nil
+      return err
     }
     // evaluate objective function
     if _, w, gt, err := obj.f(j, obj.x1); err != nil {
